@@ -237,12 +237,51 @@ func checkMerger(p *Prog, r *Report, fn *ssa.Function, rule, ruleWiring string) 
 		return
 	}
 	var mux, closer *ssa.Function
-	for _, g := range GoClosures(fn) {
-		if len(g.Params) == 1 {
+	var muxIn ssa.Value
+	heads0 := LoopHeaders(fn)
+	for _, b := range fn.Blocks {
+		for _, in := range b.Instrs {
+			gi, isGo := in.(*ssa.Go)
+			if !isGo {
+				continue
+			}
+			g := StaticCallee(&gi.Call)
+			if g == nil {
+				continue
+			}
+			inLoop := false
+			for h := range heads0 {
+				if loopBlocks(h)[b] {
+					inLoop = true
+				}
+			}
+			if !inLoop {
+				closer = g
+				continue
+			}
+			// one multiplexer per input: its input is the channel parameter that is not the merger's output
 			mux = g
-		} else if len(g.Params) == 0 {
-			closer = g
+			for i, prm := range g.Params {
+				if _, isChan := prm.Type().Underlying().(*types.Chan); !isChan || i >= len(gi.Call.Args) {
+					continue
+				}
+				fromOut := false
+				for _, o := range p.Origins(gi.Call.Args[i]) {
+					if o == ssa.Value(out) {
+						fromOut = true
+					}
+				}
+				if !fromOut {
+					muxIn = prm
+				}
+			}
 		}
+	}
+	if mux != nil && muxIn == nil && len(mux.Params) == 1 {
+		muxIn = mux.Params[0]
+	}
+	if muxIn == nil {
+		mux = nil
 	}
 	if mux == nil || closer == nil {
 		r.Undecided(rule, name, pos, "merger spawns per-input multiplexers and one closer", "goroutine shapes not recognised")
@@ -264,7 +303,7 @@ func checkMerger(p *Prog, r *Report, fn *ssa.Function, rule, ruleWiring string) 
 		key := segKey(mux, "iteration-path", i)
 		var got ssa.Value
 		for _, rc := range s.Recvs() {
-			if s.Resolve(rc.Chan) == ssa.Value(mux.Params[0]) {
+			if s.Resolve(rc.Chan) == muxIn {
 				if rc.Ok == nil {
 					got = rc.Val
 				} else if k, v := s.BoolFact(rc.Ok); k && v {
@@ -278,7 +317,13 @@ func checkMerger(p *Prog, r *Report, fn *ssa.Function, rule, ruleWiring string) 
 			if e.Raw || e.Lossy {
 				ok, detail = false, "raw or lossy forward (blocks after cancel / drops items)"
 			}
-			if !p.SameOrigin(e.Chan, out) {
+			toOut := p.SameOrigin(e.Chan, out)
+			for _, o := range p.OriginsIP(e.Chan) {
+				if o == ssa.Value(out) {
+					toOut = true
+				}
+			}
+			if !toOut {
 				ok, detail = false, "forward to a channel other than the merger's output"
 			}
 		}
@@ -335,14 +380,19 @@ func checkMerger(p *Prog, r *Report, fn *ssa.Function, rule, ruleWiring string) 
 	for _, b := range fn.Blocks {
 		for _, in := range b.Instrs {
 			g, ok := in.(*ssa.Go)
-			if !ok || StaticCallee(&g.Call) != mux || len(g.Call.Args) != 1 {
+			if !ok || StaticCallee(&g.Call) != mux {
 				continue
 			}
-			// arg = *(&channels[i]) with i the range index phi compared to len(channels)
-			if u, ok := g.Call.Args[0].(*ssa.UnOp); ok {
-				if ia, ok := u.X.(*ssa.IndexAddr); ok && ia.X == ssa.Value(chans) {
-					if isFullRangeIndex(ia.Index, chans) {
-						spawnOK = true
+			// the input argument = *(&channels[i]) with i the range index phi compared to len(channels)
+			for ai, arg := range g.Call.Args {
+				if ai < len(mux.Params) && ssa.Value(mux.Params[ai]) != muxIn && len(g.Call.Args) != 1 {
+					continue
+				}
+				if u, ok := arg.(*ssa.UnOp); ok {
+					if ia, ok := u.X.(*ssa.IndexAddr); ok && ia.X == ssa.Value(chans) {
+						if isFullRangeIndex(ia.Index, chans) {
+							spawnOK = true
+						}
 					}
 				}
 			}
